@@ -303,6 +303,11 @@ func (w *World) Step(bo *BlockOp) bool {
 	if err := w.TM.EndBlock(end.ValidatorUpdates); err != nil {
 		w.Report("C17", "tendermint-accepts-updates", "rejected-update", fmt.Sprintf("validator updates at height %d would be refused by Tendermint: %v; updates=%v", h, err, fmtUpdates(end.ValidatorUpdates)), h)
 	}
+	if w.TM.Empty {
+		w.Stats.Truncated = "validator set became empty"
+		w.Probe("validator_set_empty")
+		return false
+	}
 	ex, err := ColdExport(w.Disk, uint64(h))
 	if err != nil {
 		w.InfraErr = fmt.Errorf("cold export at %d: %v", h, err)
